@@ -546,7 +546,7 @@ vbi_bool vbi_proxy_msg_handle_read( VBIPROXY_MSG_STATE * pIO,
             err = TRUE;
       }
 
-      if ((err == FALSE) && (pIO->readOff >= sizeof(VBIPROXY_MSG_HEADER)))
+      if ((err == FALSE) && result && (pIO->readOff >= sizeof(VBIPROXY_MSG_HEADER)))
       {  /* in read phase two: read the complete message into the allocated buffer */
          assert (pIO->readLen <= (size_t) max_read_len);
 
